@@ -13,6 +13,7 @@ RULE = ('random well-typed trees over Int/Id/Mem(with and without segment)/Op/Co
         'disjointness, visit(identity), replace_expr for every distinct sub-term (structural reference substitution and '
         'value under the substituted valuation), canonize() value. A case = (law, canonical tree, sub-term index); '
         'non-trivial = the law was actually evaluated on a tree with at least two nodes.')
+RULE += ' Round 6: constants with the top bit set are twinned with the same bit pattern held as a signed constant (equal constants must hash equally); slices are twinned with windows whose bounds have the same xor / the same sum.'
 ASSUMPTIONS = ['irsem is the meaning of the IR (self-test run by setup)', 'segment annotations do not take part in the value (flat memory)']
 
 
@@ -109,6 +110,13 @@ def mutations(e, rng):
                 muts.append(('value-top-bit', exprgen.Int(int(nd.arg) ^ (1 << (w - 1)), w)))
             if w == 128:
                 muts.append(('value-bit-64', exprgen.Int(int(nd.arg) ^ (1 << 64), w)))
+            if w >= 64:
+                # another constant with the same Python integer hash (same residue modulo 2^61-1)
+                v2 = int(nd.arg) + (1 << 61) - 1
+                if v2 >= (1 << w):
+                    v2 = int(nd.arg) - ((1 << 61) - 1)
+                if 0 <= v2 < (1 << w):
+                    muts.append(('value-same-pyhash', exprgen.Int(v2, w)))
             if w > 1 and (int(nd.arg) >> (w - 1)) & 1 and nd.arg.__class__.__name__.startswith('uint'):
                 # the same bit pattern held as a signed constant: whatever == says, equal constants must hash equally
                 muts.append(('signedness', ex.ExprInt(getattr(mi, 'int%d' % w)(int(nd.arg) - (1 << w)))))
@@ -379,6 +387,41 @@ def check_tree(sh, e, rng, seedtag):
         want = ref_subst(e, {ck: u})
         if exprgen.canon(got) != exprgen.canon(want):
             law('replace-structure', t.__class__.__name__, 'by-sibling/' + _where(e, ck), 'replace %s by %s in %s gives %s, reference substitution %s' % (t, u, e, got, want), {'sub': ck, 'by': cu})
+    # --- an assignment whose destination identifier is replaced by a slice of a location of another width: the result must
+    # assign exactly those bits of the location (and keep the others), whatever width the location has
+    if is_aff and e.dst.__class__.__name__ == 'ExprId' and e.dst.size in (8, 16, 32):
+        w = e.dst.size
+        for W in (16, 32, 64):
+            for a_ in sorted(set((0, 8, W - w))):
+                if a_ < 0 or a_ + w > W or (a_ == 0 and W == w):
+                    continue
+                X = ex.ExprId('X_loc%d' % W, W)
+                sl = ex.ExprSlice(X, a_, a_ + w)
+                sh.case(('aff-slice-dst', c, W, a_), cls='aff-slice-dst:%d' % W)
+                try:
+                    got = e.replace_expr({exprgen.fresh_copy(e.dst): sl})
+                    for env in envs:
+                        xv = irsem.evaluate(X, env)
+                        env2 = env.copy()
+                        env2.ids[e.dst.name] = (xv >> a_) & irsem.mask(w)
+                        try:
+                            sv = irsem.evaluate(e.src, env2)
+                        except (irsem.Undefined, irsem.Uninterpreted):
+                            continue
+                        want_x = (xv & ~(irsem.mask(w) << a_)) | (sv << a_)
+                        if got.dst.__class__.__name__ == 'ExprSlice':
+                            ok = exprgen.canon(got.dst) == exprgen.canon(sl) and irsem.evaluate(got.src, env) == sv
+                        else:
+                            ok = exprgen.canon(got.dst) == exprgen.canon(X) and irsem.width(got.src) == W and irsem.evaluate(got.src, env) == want_x
+                        if not ok:
+                            law('replace-value', 'ExprAff', 'destination-by-slice/w%d' % W, 'replacing the destination of %s by %s gives %s: the location does not end up with 0x%x' % (e, sl, got, want_x))
+                            break
+                except (irsem.Undefined, irsem.Uninterpreted):
+                    pass
+                except irsem.IllFormed as exn:
+                    law('replace-ill-formed', 'ExprAff', 'destination-by-slice/w%d' % W, '%r replacing the destination of %s by %s' % (exn, e, sl))
+                except Exception as exn:
+                    law('replace-raises:%s' % type(exn).__name__, 'ExprAff', 'destination-by-slice/w%d' % W, '%r replacing the destination of %s by %s' % (exn, e, sl))
     # --- canonize preserves the value
     if not is_aff:
         sh.case(('canonize', c))
